@@ -1,8 +1,10 @@
 package harness
 
 import (
+	"bytes"
 	"context"
 	"fmt"
+	goruntime "runtime"
 	"sort"
 	"strings"
 	"sync"
@@ -28,6 +30,14 @@ import (
 // random external write bursts, probes with virtual busy time. At every `quiesce` each
 // probe's last observation of every key matching its inputs is printed; the driver
 // prints what the property demands.
+//
+// Stall windows (`stall` … `w`* … `unstall`): a probe controller whose Outputs() blocks on a
+// gate is registered in a goroutine, so RegisterController keeps Runtime.controllersMu and the
+// delivery goroutine of processWatched is parked between GetDependentControllers and its
+// triggers while the writes of the window go through deduplicateWatchEvents one batch at a
+// time (pipeSettle after each write). This drives the hand-off of the dedup map through the
+// states of Cosi.Model.Handoff that free running never reaches deterministically: a batch
+// that adds no new key to a non-empty map, and a registration between lookup and trigger.
 
 func init() { Register("pipeline", func() Engine { return &pipeEng{} }) }
 
@@ -44,18 +54,33 @@ func (*pipeEng) Cases(thorough bool) int {
 }
 
 func (*pipeEng) Rule() string {
-	return "1-4 probe controllers (Controller / QController) with random inputs over 3 types x 3 ids (weak, strong, destroy-ready by kind or by id; q-primary, q-mapped, q-mapped-destroy-ready), registered before or after start, inputs updated later, optional cached kind, probes busy 0-3 virtual seconds; bursts of 1-6 external writes (create, label/finalizer/phase changes, destroy) between quiescence points; non-trivial = a burst with more than one event of one key and a busy probe and at least 3 quiescence points; distinct by hash of the op lines"
+	return "1-4 probe controllers (Controller / QController) with random inputs over 3 types x 3 ids (weak, strong, destroy-ready by kind or by id; q-primary, q-mapped, q-mapped-destroy-ready), registered before or after start, inputs updated later, optional cached kind, probes busy 0-3 virtual seconds; bursts of 1-6 external writes (create, label/finalizer/phase changes, destroy) between quiescence points; case idx%4==1: 1-2 stall windows (a registration whose Outputs() is held by the harness keeps controllersMu, so the delivery goroutine is parked between lookup and trigger while 2-6 writes with repeated keys pass the dedup goroutine one batch each; the first key is not an input of a chosen victim probe, the repeated keys are), each followed by a quiescence point; case idx%8==3: fan scenario (3 or 5 R probes with a by-kind input on one type + one R probe with a by-ID input on the same type, a stall window whose blocker has a by-kind input on that type and whose writes hit that ID); 2 fixed corpus cases (the two window scenarios in minimal form) run first; non-trivial = a burst with more than one event of one key and a busy probe and at least 3 quiescence points, or a stall window with a repeated key followed by a quiescence point; distinct by hash of the op lines"
 }
 
 func (*pipeEng) NonTrivial(c Case, _ []string) bool {
 	q, busy, burst := 0, false, false
 	seen := map[string]bool{}
+	inWindow, windowBurst, window := false, false, false
 
 	for _, op := range c.Ops {
 		name, a := ParseLine(op)
 
+		if name != "w" && name != "quiesce" && name != "unstall" {
+			windowBurst = false
+		}
+
 		switch name {
+		case "stall":
+			inWindow = true
+			seen = map[string]bool{}
+		case "unstall":
+			inWindow = false
 		case "quiesce":
+			if windowBurst {
+				window = true
+			}
+
+			windowBurst = false
 			q++
 			seen = map[string]bool{}
 		case "reg":
@@ -66,13 +91,17 @@ func (*pipeEng) NonTrivial(c Case, _ []string) bool {
 			k := a["typ"] + "/" + a["id"]
 			if seen[k] {
 				burst = true
+
+				if inWindow {
+					windowBurst = true
+				}
 			}
 
 			seen[k] = true
 		}
 	}
 
-	return q >= 3 && busy && burst
+	return (q >= 3 && busy && burst) || window
 }
 
 var (
@@ -139,6 +168,55 @@ func (e *pipeEng) genDecls(r *Rand, flavour string, allowMixed bool) string {
 	return strings.Join(ds, ",")
 }
 
+// muts that always produce a watch event on an existing resource (a write to an absent one creates it)
+var pipeEventMuts = []string{"setLabel:k1:v1", "setLabel:k1:v2", "setSpec:s1", "setSpec:s2"}
+
+func pipeDeclsMatch(decls, typ, id string) bool {
+	for _, d := range pipeParseDecls(decls) {
+		if d.typ == typ && (d.id == "-" || d.id == id) {
+			return true
+		}
+	}
+
+	return false
+}
+
+const pipeHeader = "# engine=pipeline nsaware=1 initcap=100 maxcap=100 gap=5 cached=%s mixed=%v case=%v"
+
+// Corpus: the two parked-delivery scenarios in minimal form (always run first).
+//
+//	corpus-repeat: the delivery of T1/a is parked; T2/a changes twice behind it (the second batch adds no
+//	               new key to the non-empty map); p2 must still see the last T2/a.
+//	corpus-fan:    three by-kind dependents and one by-ID dependent of T1; the delivery of T1/a is parked
+//	               after its lookup while a fourth by-kind dependent is registered; p4 must still be woken.
+func (*pipeEng) Corpus(bool) []Case {
+	return []Case{
+		{
+			Header: fmt.Sprintf(pipeHeader, "", false, "corpus-repeat"),
+			Ops: []string{
+				"w t=1 typ=T1 id=a mut=setSpec:s1", "w t=2 typ=T2 id=a mut=setSpec:s1",
+				"reg t=3 p=1 fl=r in=T1/a/weak busy=0", "reg t=4 p=2 fl=r in=T2/a/weak busy=0",
+				"start t=5", "quiesce t=6",
+				"stall t=17 p=100 in=T3/-/weak",
+				"w t=17 typ=T1 id=a mut=setSpec:s2", "w t=17 typ=T2 id=a mut=setSpec:s2", "w t=17 typ=T2 id=a mut=setSpec:s1",
+				"unstall t=17", "quiesce t=18",
+			},
+		},
+		{
+			Header: fmt.Sprintf(pipeHeader, "", false, "corpus-fan"),
+			Ops: []string{
+				"w t=1 typ=T1 id=a mut=setSpec:s1",
+				"reg t=2 p=1 fl=r in=T1/-/weak busy=0", "reg t=3 p=2 fl=r in=T1/-/strong busy=0", "reg t=4 p=3 fl=r in=T1/-/weak busy=0",
+				"reg t=5 p=4 fl=r in=T1/a/weak busy=0",
+				"start t=6", "quiesce t=7",
+				"stall t=18 p=100 in=T1/-/weak",
+				"w t=18 typ=T1 id=a mut=setSpec:s2",
+				"unstall t=18", "quiesce t=19",
+			},
+		},
+	}
+}
+
 func (e *pipeEng) Gen(r *Rand, thorough bool, idx int) Case {
 	cached := ""
 	if r.Chance(1, 3) {
@@ -147,33 +225,169 @@ func (e *pipeEng) Gen(r *Rand, thorough bool, idx int) Case {
 
 	// one case in eight uses declarations that mix destroy-ready and other inputs in one group (D5)
 	mixed := idx%8 == 7
+	// one case in four has stall windows, one in eight is the fan scenario
+	stalls := 0
+	if idx%4 == 1 {
+		stalls = 1 + r.Intn(2)
+	}
 
-	c := Case{Header: fmt.Sprintf("# engine=pipeline nsaware=1 initcap=100 maxcap=100 gap=5 cached=%s mixed=%v case=%d", cached, mixed, idx)}
+	fan := idx%8 == 3
+
+	c := Case{Header: fmt.Sprintf(pipeHeader, cached, mixed, idx)}
 	t := 0
 	tick := func() int { t++; return t }
 	nProbes := 1 + r.Intn(4)
 	started := false
+	stallP := 100
 
 	var rProbes []int
+
+	rDecls := map[int]string{}
 
 	reg := func(p int) {
 		fl := "r"
 		if r.Chance(1, 3) {
 			fl = "q"
-		} else {
-			rProbes = append(rProbes, p)
 		}
 
-		c.Ops = append(c.Ops, fmt.Sprintf("reg t=%d p=%d fl=%s in=%s busy=%d", tick(), p, fl, e.genDecls(r, fl, mixed), Pick(r, []int{0, 0, 1, 3})))
+		decls := e.genDecls(r, fl, mixed)
+
+		if fl == "r" {
+			rProbes = append(rProbes, p)
+			rDecls[p] = decls
+		}
+
+		c.Ops = append(c.Ops, fmt.Sprintf("reg t=%d p=%d fl=%s in=%s busy=%d", tick(), p, fl, decls, Pick(r, []int{0, 0, 1, 3})))
 	}
 
 	write := func() {
 		c.Ops = append(c.Ops, fmt.Sprintf("w t=%d typ=%s id=%s mut=%s", tick(), Pick(r, pipeTypes), Pick(r, pipeIDs[:2+r.Intn(2)]), Pick(r, pipeMuts)))
 	}
 
+	quiesce := func() {
+		c.Ops = append(c.Ops, fmt.Sprintf("quiesce t=%d", tick()))
+		t += 10 // quiescing consumes virtual time
+	}
+
+	// a stall window: every op of the window carries the tick of its `stall` (virtual time cannot advance while
+	// the delivery goroutine waits for controllersMu); keys: first, then 1-5 more out of a pool of two
+	stallWindow := func(blocker string, first [2]string, pool [][2]string, n int, repeatLast bool) {
+		ts := tick()
+		c.Ops = append(c.Ops, fmt.Sprintf("stall t=%d p=%d in=%s", ts, stallP, blocker))
+		stallP++
+
+		w := func(k [2]string) {
+			mut := Pick(r, pipeEventMuts)
+			if r.Chance(1, 8) {
+				mut = Pick(r, pipeMuts)
+			}
+
+			c.Ops = append(c.Ops, fmt.Sprintf("w t=%d typ=%s id=%s mut=%s", ts, k[0], k[1], mut))
+		}
+
+		w(first)
+
+		for i := 1; i < n; i++ {
+			k := Pick(r, pool)
+			if i == 1 || (i == n-1 && repeatLast) {
+				k = pool[0]
+			}
+
+			w(k)
+		}
+
+		c.Ops = append(c.Ops, fmt.Sprintf("unstall t=%d", ts))
+		quiesce()
+	}
+
+	randomWindow := func() {
+		// the victim: an R probe and one of its inputs; the first key of the window (the one whose delivery is
+		// parked) is not an input of the victim if that can be arranged
+		vdecls := ""
+		b := [2]string{Pick(r, pipeTypes), Pick(r, pipeIDs)}
+
+		if len(rProbes) > 0 {
+			vdecls = rDecls[Pick(r, rProbes)]
+
+			if ds := pipeParseDecls(vdecls); len(ds) > 0 {
+				d := Pick(r, ds)
+				b[0] = d.typ
+
+				if d.id != "-" {
+					b[1] = d.id
+				}
+			}
+		}
+
+		a := [2]string{Pick(r, pipeTypes), Pick(r, pipeIDs)}
+		for i := 0; i < 10 && (pipeDeclsMatch(vdecls, a[0], a[1]) || a == b); i++ {
+			a = [2]string{Pick(r, pipeTypes), Pick(r, pipeIDs)}
+		}
+
+		pool := [][2]string{b, {Pick(r, pipeTypes), Pick(r, pipeIDs)}}
+
+		stallWindow(e.genDecls(r, "r", mixed), a, pool, 2+r.Intn(5), r.Chance(1, 2))
+	}
+
 	// some pre-existing resources
 	for i := r.Intn(5); i > 0; i-- {
 		write()
+	}
+
+	if fan {
+		// 3 or 5 by-kind dependents and one by-ID dependent of one type, registered in random order, before or after start
+		typ, id := Pick(r, pipeTypes), Pick(r, pipeIDs)
+		nKind := Pick(r, []int{3, 3, 5})
+		idPos := r.Intn(nKind + 1)
+		startPos := r.Intn(nKind + 2)
+
+		if r.Chance(2, 3) {
+			c.Ops = append(c.Ops, fmt.Sprintf("w t=%d typ=%s id=%s mut=setSpec:s1", tick(), typ, id))
+		}
+
+		for i := 0; i <= nKind; i++ {
+			if i == startPos {
+				c.Ops = append(c.Ops, fmt.Sprintf("start t=%d", tick()))
+				started = true
+			}
+
+			decl := typ + "/-/" + Pick(r, []string{"weak", "strong"})
+			if i == idPos {
+				decl = typ + "/" + id + "/" + Pick(r, []string{"weak", "strong"})
+			}
+
+			p := i + 1
+			rProbes = append(rProbes, p)
+			rDecls[p] = decl
+			c.Ops = append(c.Ops, fmt.Sprintf("reg t=%d p=%d fl=r in=%s busy=%d", tick(), p, decl, Pick(r, []int{0, 0, 0, 1})))
+		}
+
+		if !started {
+			c.Ops = append(c.Ops, fmt.Sprintf("start t=%d", tick()))
+			started = true
+		}
+
+		quiesce()
+
+		for w := 1 + r.Intn(2); w > 0; w-- {
+			// the parked delivery is the one of typ/id; what follows in the window are other keys
+			other := [2]string{Pick(r, pipeTypes), Pick(r, pipeIDs)}
+			for i := 0; i < 10 && other == [2]string{typ, id}; i++ {
+				other = [2]string{Pick(r, pipeTypes), Pick(r, pipeIDs)}
+			}
+
+			if other == [2]string{typ, id} {
+				break
+			}
+
+			stallWindow(typ+"/-/"+Pick(r, []string{"weak", "strong"}), [2]string{typ, id}, [][2]string{other, other}, 1+r.Intn(3), false)
+
+			if nKind == 3 {
+				break // a fourth by-kind dependent fills the table's backing array: no spare slot for a second window
+			}
+		}
+
+		nProbes = 0 // no further random registrations: they would change the by-kind table
 	}
 
 	pre := r.Intn(nProbes + 1)
@@ -186,6 +400,10 @@ func (e *pipeEng) Gen(r *Rand, thorough bool, idx int) Case {
 
 	if thorough {
 		rounds = 6 + r.Intn(8)
+	}
+
+	if fan {
+		rounds = 1 + r.Intn(3)
 	}
 
 	for round := 0; round < rounds; round++ {
@@ -201,7 +419,10 @@ func (e *pipeEng) Gen(r *Rand, thorough bool, idx int) Case {
 
 		if started && len(rProbes) > 0 && r.Chance(1, 5) {
 			// dynamic input update of an R probe
-			c.Ops = append(c.Ops, fmt.Sprintf("updin t=%d p=%d in=%s", tick(), Pick(r, rProbes), e.genDecls(r, "r", mixed)))
+			p := Pick(r, rProbes)
+			decls := e.genDecls(r, "r", mixed)
+			rDecls[p] = decls
+			c.Ops = append(c.Ops, fmt.Sprintf("updin t=%d p=%d in=%s", tick(), p, decls))
 		}
 
 		for i := 1 + r.Intn(6); i > 0; i-- {
@@ -209,8 +430,12 @@ func (e *pipeEng) Gen(r *Rand, thorough bool, idx int) Case {
 		}
 
 		if started {
-			c.Ops = append(c.Ops, fmt.Sprintf("quiesce t=%d", tick()))
-			t += 10 // quiescing consumes virtual time
+			quiesce()
+		}
+
+		if started && stalls > 0 && (r.Chance(1, 2) || rounds-round <= stalls) {
+			randomWindow()
+			stalls--
 		}
 	}
 
@@ -270,13 +495,92 @@ type pipeProbe struct {
 	observed map[string]uint64
 	updErr   string
 	rt       controller.Runtime
+	// stall probe: the first Outputs() call (made by NewAdapter under Runtime.controllersMu) waits for the gate
+	gate     chan struct{}
+	gateOnce sync.Once
 }
 
 func (p *pipeProbe) Name() string { return p.name }
 
 func (p *pipeProbe) Inputs() []controller.Input { return pipeInputs(p.decls) }
 
-func (p *pipeProbe) Outputs() []controller.Output { return nil }
+func (p *pipeProbe) Outputs() []controller.Output {
+	if p.gate != nil {
+		p.gateOnce.Do(func() { <-p.gate })
+	}
+
+	return nil
+}
+
+// pipeSettle returns when every other goroutine of the caller's synctest bubble is blocked — durably (as
+// synctest.Wait demands) or on a sync.Mutex / sync.RWMutex. synctest.Wait cannot be used while the delivery
+// goroutine waits for controllersMu (a mutex wait is not durable, Wait would never return); the mutex is held
+// by the stalled registration, which is durably blocked on its gate, so such a state is stable as well: nothing
+// in the bubble can run before the caller acts, and virtual time does not advance while the caller runs.
+// runtime.Stack(all) stops the world, so each snapshot is consistent.
+func pipeSettle() {
+	buf := make([]byte, 1<<20)
+
+	for iter := 0; ; iter++ {
+		goruntime.Gosched()
+
+		n := goruntime.Stack(buf, true)
+		if n == len(buf) {
+			buf = make([]byte, 2*len(buf))
+
+			continue
+		}
+
+		blocks := bytes.Split(buf[:n], []byte("\n\n"))
+		bubble := pipeBubbleTag(blocks[0])
+
+		if bubble == "" {
+			panic("pipeSettle: not in a synctest bubble")
+		}
+
+		settled := true
+
+		for _, b := range blocks[1:] {
+			if pipeBubbleTag(b) != bubble {
+				continue
+			}
+
+			hdr, _, _ := bytes.Cut(b, []byte("\n"))
+			_, st, _ := bytes.Cut(hdr, []byte("["))
+
+			if !(bytes.Contains(st, []byte("(durable)")) || bytes.HasPrefix(st, []byte("sync.RWMutex.")) || bytes.HasPrefix(st, []byte("sync.Mutex."))) {
+				settled = false
+
+				break
+			}
+		}
+
+		if settled {
+			return
+		}
+
+		if iter > 1_000_000 {
+			panic("pipeSettle: the bubble does not settle")
+		}
+	}
+}
+
+// pipeBubbleTag extracts "synctest bubble N" from the header line of a goroutine dump block.
+func pipeBubbleTag(block []byte) string {
+	hdr, _, _ := bytes.Cut(block, []byte("\n"))
+
+	i := bytes.Index(hdr, []byte("synctest bubble "))
+	if i < 0 {
+		return ""
+	}
+
+	tag := hdr[i:]
+	if j := bytes.IndexAny(tag, ",]"); j >= 0 {
+		tag = tag[:j]
+	}
+
+	return string(tag)
+}
 
 func (p *pipeProbe) record(typ, id string, r resource.Resource, err error) {
 	p.mu.Lock()
@@ -462,9 +766,45 @@ func (e *pipeEng) Exec(t *testing.T, c Case) []string {
 		runErr := ""
 		started := false
 
+		// the open stall window: the registration goroutine's result channel, the gate, the tick of the `stall`
+		var (
+			stallDone chan error
+			stallGate chan struct{}
+			stallT    string
+			stallRes  string // result of a registration that was released implicitly, reported by the next `unstall`
+		)
+
+		release := func() string {
+			if stallDone == nil {
+				return "ok"
+			}
+
+			close(stallGate)
+
+			err := <-stallDone
+			stallDone, stallGate = nil, nil
+
+			if err != nil {
+				return "reject"
+			}
+
+			return "ok"
+		}
+
 		for _, line := range c.Ops {
 			op, a := ParseLine(line)
-			if d := fromTick(a.Int("t")).Sub(time.Now()); d > 0 {
+
+			// a stall window stays open only across `w` ops of the same tick (and `stall` ops, which are ignored);
+			// anything else closes it first — virtual time cannot advance while the delivery goroutine waits for
+			// controllersMu, and start / reg / quiesce need the lock or a settled bubble
+			d := fromTick(a.Int("t")).Sub(time.Now())
+			if stallDone != nil && op != "unstall" && op != "stall" && (op != "w" || a["t"] != stallT || d > 0) {
+				if res := release(); res != "ok" {
+					stallRes = res
+				}
+			}
+
+			if d > 0 {
 				time.Sleep(d)
 			}
 
@@ -518,8 +858,37 @@ func (e *pipeEng) Exec(t *testing.T, c Case) []string {
 					go func() { runDone <- rt.Run(ctx) }()
 
 					return "ok"
+				case "stall":
+					if stallDone != nil {
+						return "ok"
+					}
+
+					p := &pipeProbe{name: "p" + a["p"], flavour: "r", decls: pipeParseDecls(a["in"]), observed: map[string]uint64{}, gate: make(chan struct{})}
+					probes[a["p"]] = p
+					stallDone, stallGate, stallT = make(chan error, 1), p.gate, a["t"]
+
+					go func(done chan error) { done <- rt.RegisterController(p) }(stallDone)
+
+					// the registration now waits in Outputs(), holding controllersMu
+					pipeSettle()
+
+					return "ok"
+				case "unstall":
+					res := release()
+					if stallRes != "" {
+						res, stallRes = stallRes, ""
+					}
+
+					return res
 				case "w":
-					return pipeWrite(ctx, inner, a)
+					res := pipeWrite(ctx, inner, a)
+
+					if stallDone != nil {
+						// one batch per write: let the watchers and the dedup goroutine finish with this event
+						pipeSettle()
+					}
+
+					return res
 				case "quiesce":
 					if !started {
 						return "not-started"
@@ -564,6 +933,7 @@ func (e *pipeEng) Exec(t *testing.T, c Case) []string {
 			out = append(out, res)
 		}
 
+		release()
 		cancel()
 		synctest.Wait()
 	})
